@@ -116,7 +116,7 @@ func main() {
 		"Non-trivial = the case reaches the comparison against the target (seal/threshold), a parser gets past the first push, or a header/uncle case "+
 		"reaches the AuxPoW section; distinct by (kind, branch fingerprint)")
 	header := "From Coq Require Import List ZArith Bool.\nFrom GQ Require Import Model.C08.\nImport ListNotations.\nLocal Open Scope Z_scope.\n"
-	h := &H{f: f, rep: rep, cw: hlib.NewCaseWriter(f.Out, header, "C08.case", 40)}
+	h := &H{f: f, rep: rep, cw: hlib.NewCaseWriter(f.Out, header, "C08.case", 100)}
 	gs := gens()
 	byKind := map[string]gen{}
 	for _, g := range gs {
@@ -138,7 +138,7 @@ func main() {
 				h.runOne(g, uint64(1000+i), v)
 			}
 		}
-		rng := hlib.NewRng(f.Seed)
+		rng := hlib.NewRng(f.Seed).Fork() // Fork: NewRng(s+1) is NewRng(s) shifted by one draw
 		weights := make([]int, len(gs))
 		for i, g := range gs {
 			weights[i] = g.weight
